@@ -109,9 +109,11 @@ Section Single.
     let r' := mkR (hold (mk_new st (cls_of k) nm key extra ch d) i) (r_seq r) cn' (r_rate r) in
     let acc' := with_dict k acc (dset nm i (dict_of k acc)) in
     (Core (prev ++ [s]) r' acc' -> Later r acc r' acc' -> Built r' acc' s) ->
+    (forall n0 names sst, In (n0, (names, sst)) (cplx_entry prev s) ->
+       Later r acc r' acc' -> exists conc, BuiltCplx cc r' acc' n0 names sst conc) ->
     read_one ct G None (TList line) acc r = (r', Ok acc') /\ SInv (prev ++ [s]) r' acc' /\ Later r acc r' acc'.
   Proof.
-    intros [C B] Hdec Hk st i Hex HF Hch HO Hdecl Hnm Hdd Hdr Hattr r' acc' HB.
+    intros [C B] Hdec Hk st i Hex HF Hch HO Hdecl Hnm Hdd Hdr Hattr r' acc' HB Hent.
     assert (HkR : k <> KindR) by (destruct Hk as [<-|[<-|[<-|[]]]]; discriminate).
     assert (HkD : k <> KindD) by (destruct Hk as [<-|[<-|[<-|[]]]]; discriminate).
     destruct (core_add ct cd cs cc cm cr CO prev (prev ++ [s]) r acc k nm key extra ch d (r_seq r) cn' (r_rate r)
@@ -122,6 +124,8 @@ Section Single.
     { intros x l Hx. rewrite decl_doms_app, Hdd, app_nil_r in Hx. apply (si_decl _ _ _ _ _ _ _ _ _ C x l Hx). }
     { intros ri Hri. apply in_or_app. left. exact Hri. }
     { intros j Hj. fold st in Hj. fold i in Hj. split; [reflexivity|]. split; [apply Hattr; exact Hj | reflexivity]. }
+    { intros n0 names0 sst0 Hin. rewrite decl_cplx_snoc in Hin. apply in_app_or in Hin.
+      destruct Hin as [Hin|Hin]; [left; exact Hin | right; apply Hent; exact Hin]. }
     fold st in C', L'. fold i in C', L'. fold r' in C', L'. fold acc' in C', L'.
     set (r1 := mkR (hold (mk_new (holds st temps) (cls_of k) nm key extra ch d) i) (r_seq r) cn' (r_rate r)) in Hex.
     assert (Ef : file_obj ct G (RObj i) acc r1 = (r1, Ok (acc', [i]))).
